@@ -27,9 +27,11 @@ def cases(ctx):
         trees.append(TT.fill(sh, iter([TT.leaf_script(rng, big=rng.random() < 0.03) for _ in range(nl)])))
     scr = [None, None] + [G.rbytes(rng, 32) for _ in range(3)] + trees
     want_odd = False
+    pool = {False: [priv_with_parity(rng, False) for _ in range(2)], True: [priv_with_parity(rng, True) for _ in range(2)]}
     for s in scr * (1 if ctx.scale <= 1 and not ctx.thorough else 4):
         want_odd = not want_odd
-        priv = priv_with_parity(rng, want_odd)
+        # mostly keys that already signed for other trees (the implementation side re-uses one object per secret)
+        priv = rng.choice(pool[want_odd]) if rng.random() < 0.8 else priv_with_parity(rng, want_odd)
         pub = priv.get_public_key()
         digest = G.rbytes(rng, 32)
         for ht in ([rng.choice(TYPES)] if rng.random() < 0.8 else [0, rng.choice(TYPES[1:])]):
@@ -72,12 +74,19 @@ def cases(ctx):
         yield Case(f'tr_sign_tx {hx(priv.to_bytes())} {TT.line(tree)} {line}', 's', nontrivial=True, tag='full', spec=spec)
 
 
+KEYS = {}
+
+
+KEYS = {}
+
+
 def impl(op, a, ctx):
     from bitcoinutils.keys import PrivateKey
     from bitcoinutils.script import Script
     F = Fields(a)
     if op == 'tr_sign':
-        priv = PrivateKey(b=F.bytes()); F.bytes(); s = TT.parse_scripts(F); digest = F.bytes(); ht = F.nat(); tweak = F.bool(); F.done()
+        kb = F.bytes(); F.bytes()
+        priv = KEYS.setdefault(kb, PrivateKey(b=kb))         # one object per secret for the whole run; s = TT.parse_scripts(F); digest = F.bytes(); ht = F.nat(); tweak = F.bool(); F.done()
         sig1 = priv._sign_taproot_input(digest, ht, TT.scripts_py(s), tweak)
         sig2 = priv._sign_taproot_input(digest, ht, TT.scripts_py(s), tweak)
         return 'ok ' + (sig1 if sig1 == sig2 else 'nondeterministic')
